@@ -1,17 +1,9 @@
 ----------------------------- MODULE MC_Roles -----------------------------
 (* C10 / C11 / C15: closure of the role states under all 25 transaction    *)
 (* types submitted by every account of the universe.                        *)
-EXTENDS Props, Json
+EXTENDS MCBase
 
-MCAccounts == {"a1", "a2", "a3"}
-
-BaseState ==
-  [owner |-> "a1", pending |-> None, attMgr |-> "a1", pauser |-> "a1", tokCtl |-> "a1",
-   attesters |-> {[key |-> "k1", sp |-> "hex"], [key |-> "k2", sp |-> "hex"]}, threshold |-> 1,
-   pausedBM |-> FALSE, pausedSR |-> FALSE, maxBody |-> 200, nextNonce |-> 0,
-   used |-> {}, pairs |-> {[d |-> "d1", t |-> B("j", "t1"), denom |-> MINT]},
-   msgrs |-> {[d |-> "d1", addr |-> B("j", "m1")]}, limits |-> {[denom |-> MINT, amt |-> 2]},
-   bal |-> [a \in AddrSyms |-> IF a \in MCAccounts THEN 2 ELSE 0], supply |-> 6]
+MCAccounts == IF Thorough THEN {"a1", "a2", "a3", "a4"} ELSE {"a1", "a2", "a3"}
 
 MCInit == {BaseState}
 
@@ -31,7 +23,6 @@ AdminMsgs(from) ==
   \cup [type : {"UnlinkTokenPair"}, from : {from}, d : {"d1"}, tok : {B("j", "t1")}]
   \cup [type : {"SetMaxBurnAmountPerMessage"}, from : {from}, denom : {MINT}, amt : {1}]
 
-Raw(id, len) == [k |-> "raw", id |-> id, len |-> len]
 UserMsgs(from) ==
        [type : {"SendMessage"}, from : {from}, dst : {"d1"}, rcpt : {B("j", "r1")}, body : {Raw(1, 10)}]
   \cup [type : {"DepositForBurn"}, from : {from}, amt : {1}, dst : {"d1"}, mrcpt : {B("j", "x1")}, tok : {MINT}]
@@ -41,11 +32,8 @@ MCMsgs(s, h) == UNION {AdminMsgs(a) \cup UserMsgs(a) : a \in MCAccounts}
 \* One representative of the non-role part of the state per role assignment.
 RoleView == <<st.owner, st.pending, st.attMgr, st.pauser, st.tokCtl, tx>>
 
-Init == st \in MCInit /\ tx = Idle /\ hist = HistInit(st) /\ last = NoLast
-Next == (\E m \in MCMsgs(st, hist) : Submit(m)) \/ (\E env \in BOOLEAN : CallLedger(env))
+Init == InitOver(MCInit)
+Next == NextOver(MCMsgs, 1000)
 Spec == Init /\ [][Next]_vars
 
-EmitEdge == IF tx'.pc = "idle"
-            THEN PrintT(ToJson([pre |-> st, msg |-> last'.msg, faults |-> last'.faults]))
-            ELSE TRUE
 =============================================================================
